@@ -428,3 +428,49 @@ func pkgPathOf(f *ssa.Function) string {
 	}
 	return f.Pkg.Pkg.Path()
 }
+
+// SitesIn lifts ins to the instructions of anchor under which it executes: ins itself when it
+// belongs to anchor, otherwise the guard sites of its function (direct calls of a liftable
+// helper, the call a callback is handed to), recursively up to LiftDepth+2 levels. It returns
+// nil if some chain does not end in anchor or the callers are not completely known.
+func (w *World) SitesIn(anchor *ssa.Function, ins ssa.Instruction) []ssa.Instruction {
+	var out []ssa.Instruction
+	seen := map[ssa.Instruction]bool{}
+	var up func(i ssa.Instruction, depth int) bool
+	up = func(i ssa.Instruction, depth int) bool {
+		if i == nil || i.Parent() == nil || depth < 0 {
+			return false
+		}
+		if i.Parent() == anchor {
+			if !seen[i] {
+				seen[i] = true
+				out = append(out, i)
+			}
+			return true
+		}
+		sites := w.GuardSites(i.Parent())
+		if len(sites) == 0 {
+			return false
+		}
+		for _, s := range sites {
+			if !up(s.(ssa.Instruction), depth-1) {
+				return false
+			}
+		}
+		return true
+	}
+	if !up(ins, LiftDepth+2) {
+		return nil
+	}
+	return out
+}
+
+// UpArgs returns, for a parameter of a liftable helper, the corresponding argument at every
+// direct call site (nil when the helper's callers are not completely known).
+func UpArgs(p *ssa.Parameter) []ssa.Value { return upArgs(p) }
+
+// LiftPred extends a must-pass predicate over helper calls: a direct call of a helper that
+// executes pred on every path counts as pred (depth LiftDepth).
+func LiftPred(pred func(ssa.Instruction) bool) func(ssa.Instruction) bool {
+	return liftPred(pred, LiftDepth)
+}
